@@ -28,6 +28,9 @@ class CallGraph:
         self.repo = repo
         self.edges: dict[tuple[str, str], set[tuple[str, str]]] = {}
         self.unresolved: dict[tuple[str, str], set[str]] = {}
+        # dynamic-dispatch idioms that were not found in their usual shape;
+        # the edges to every candidate are kept (over-approximation)
+        self.dispatch_lost: list[str] = []
         self._modfuncs = {}
         for m in repo.modules.values():
             for q in m.funcs:
@@ -224,8 +227,10 @@ class CallGraph:
         src_names = {n.id for n in ast.walk(f) if isinstance(n, ast.Name)}
         if m.name == "preproc" and q == "get_func":
             if "PREPROCESSORS" not in src_names:
-                raise AnchorError("preproc.get_func no longer scans "
-                                  "PREPROCESSORS")
+                # the registry is reached some other way: keep the
+                # conservative edges to every registered step
+                self.dispatch_lost.append("preproc.get_func no longer "
+                                          "scans PREPROCESSORS")
             for qq, ff in m.funcs.items():
                 if any(isinstance(d, ast.Call) and dotted(d.func) ==
                        "preprocessing_step" for d in ff.decorator_list):
@@ -236,8 +241,8 @@ class CallGraph:
                 out |= self._dynamic(m, "get_func", m.funcs["get_func"])
         if m.name == "poc" and q == "compute_poc":
             if "POC_METHODS" not in src_names:
-                raise AnchorError("poc.compute_poc no longer scans "
-                                  "POC_METHODS")
+                self.dispatch_lost.append("poc.compute_poc no longer scans "
+                                          "POC_METHODS")
             for qq, ff in m.funcs.items():
                 if any(isinstance(d, ast.Call) and dotted(d.func) == "poc"
                        for d in ff.decorator_list):
@@ -245,8 +250,8 @@ class CallGraph:
         if m.name == "rate.features" and q == \
                 "IndentationFeatures.compute_features":
             if "getattr" not in names:
-                raise AnchorError("compute_features no longer dispatches "
-                                  "through getattr")
+                self.dispatch_lost.append("compute_features no longer "
+                                          "dispatches through getattr")
             for qq in m.funcs:
                 if qq.startswith("IndentationFeatures.feat_"):
                     out.add((m.name, qq))
